@@ -4,7 +4,7 @@ from __future__ import annotations
 import ast
 
 from sa.model import AnalysisError, calls_in, kwarg
-from sa.paths import function_paths, end_kind, consistent
+from sa.paths import function_paths, end_kind, consistent, must_raise
 from sa.symbolic import Poly, to_poly
 from sa.util import U, Env, call_is, const_value, writes_of
 from rules import c12
@@ -215,6 +215,9 @@ def run(ctx):
     ctx.rule("C11.c", "stepped / reversed slices, wrongly sized masks, too many indices, other index types are refused before construction", 5)
 
     def refused(fi, cond_pred, exc):
+        n_mr, off_mr = must_raise(fi.node, lambda e: cond_pred(U(e)), when=True, exc=exc)
+        if n_mr < 1 or off_mr:
+            return False
         for path in function_paths(fi.node):
             if end_kind(path) != "raise" or exc not in U(path[-1][2]):
                 continue
